@@ -1,4 +1,82 @@
-import Model.Snake
+/-
+  Props/C07.lean — C07 "snake removal is sound for rigid diagrams".
+
+  PARTIAL.  The code's yielded trace is checked on every run against the step relation `sstep`
+  (one legal interchange | deletion of an adjacent cap/cup pair joined straight and forming a
+  snake equation | one `normalize` redex step); the theorems below are about every trace that
+  relation accepts, so they transfer to whatever strategy the code follows.
+  Proved: every diagram of an accepted trace is well-typed, has the input's dom/cod, and denotes
+  the input's morphism under every rigid functor (monoidal functor + snake equations for the
+  images of cups/caps) into every partial strict monoidal algebra; only pairs satisfying a snake
+  equation are removed by a yank step (`yank_step_is_snake`); `find_snake` is complete over all
+  caps and both legs (so when the first loop stops no yankable pair is left).
+  NOT proved (kept as `Prop`s no theorem claims; exercised by the functional comparison of the
+  code's trace with the model's transcription on every run):
+    * `unsnake_indices_invariant` — the model's transcription of `unsnake`, with its index
+      re-numbering over a whole obstruction list, itself yields an accepted trace;
+    * termination (inherits C06's gap for the final `normalize`).
+-/
+import Proofs.Snake
+
 namespace DV.C07
-theorem placeholder : True := trivial
+open DV
+
+/-- Every prefix of an accepted snake-removal trace. -/
+theorem trace_sound {O M : Type} (C : SMC O M) (F : RFunctor C) (left : Bool) (d : Diagram)
+    (steps : List Diagram) (hd : d.WF) (hv : d.boxesValid)
+    (h : checkSnakeTrace left d steps 0 = none) :
+    ∀ s ∈ steps, s.WF ∧ s.dom = d.dom ∧ s.cod = d.cod ∧
+      F.toMFunctor.eval s = F.toMFunctor.eval d :=
+  checkSnakeTrace_ok F hd hv h
+
+/-- One accepted step, of any of the three kinds. -/
+theorem step_sound {O M : Type} (C : SMC O M) (F : RFunctor C) (left : Bool) (d d' : Diagram)
+    (hd : d.WF) (hv : d.boxesValid) (h : sstep left d d' = true) :
+    (d'.WF ∧ d'.dom = d.dom ∧ d'.cod = d.cod) ∧ F.toMFunctor.eval d' = F.toMFunctor.eval d :=
+  let r := sstep_ok F hd hv h; ⟨⟨r.1.wf, r.1.dom, r.1.cod⟩, r.2⟩
+
+/-- Only cap/cup pairs that satisfy a snake equation are removed: a position accepted by the
+    yank test holds a cap layer and a cup layer of one of the two snake shapes. -/
+theorem yank_step_is_snake (d : Diagram) (k : Nat) (hd : d.WF) (hv : d.boxesValid)
+    (h : yankableAt d k = true) :
+    ∃ a b, d.layers.boxes[k]? = some a ∧ d.layers.boxes[k+1]? = some b ∧
+      a.box.kind = .cap ∧ b.box.kind = .cup ∧ YankShape a b :=
+  let ⟨a, b, ea, eb, h1, h2, _, _, s⟩ := yankableAt_spec hd hv h; ⟨a, b, ea, eb, h1, h2, s⟩
+
+/-- Deleting the pair is well-typed with the same dom/cod. -/
+theorem remove_pair_typed (d d' : Diagram) (k : Nat) (hd : d.WF)
+    (hk : k + 1 < d.layers.boxes.length) (h : d.removePair (k : Int) ((k : Int) + 1) = .ok d') :
+    d'.WF ∧ d'.dom = d.dom ∧ d'.cod = d.cod :=
+  let r := Diagram.removePair_wf hd hk h; ⟨r.1, r.2.1, r.2.2.1⟩
+
+/-- When `find_snake` returns nothing, no cap admits a yank on either leg. -/
+theorem find_snake_complete (d : Diagram) (h : d.findSnake = none) :
+    ∀ cap b off, cap < d.boxes.length → d.boxes[cap]? = some b → d.offsets[cap]? = some off →
+      b.kind = .cap → tryYank d cap b off true = none ∧ tryYank d cap b off false = none :=
+  fun cap b off hc hb ho hk =>
+    findSnakeFrom_none h cap b off (Nat.zero_le _) (by omega) hb ho hk
+
+/-- NOT PROVED. -/
+def unsnake_indices_invariant : Prop :=
+  ∀ (d : Diagram) (y : Yank) (steps : List Diagram), d.WF → d.boxesValid →
+    d.findSnake = some y → d.unsnake y = .ok steps → checkSnakeTrace false d steps 0 = none
+
+/-- NOT PROVED. -/
+def snake_removal_terminates : Prop :=
+  ∀ (d : Diagram) (left : Bool), d.WF → connected d →
+    ∃ fuel steps, d.snakeRemoval left fuel = .ok (steps, true)
+
+/-! Non-vacuity: the snake `Id(n) @ Cap(n.r, n) >> Cup(n, n.r) @ Id(n)` is found and removed. -/
+private def n : Ob := ⟨"n", 0⟩
+private def snake : Except Err Diagram :=
+  Diagram.mk? [n] [n] [Box.cap n.r n, Box.cup n n.r] [1, 0]
+
+example : (match snake with
+    | .ok d => (match d.snakeRemoval false 10 with
+        | .ok (steps, fin) => fin && steps.length == 1 && (checkSnakeTrace false d steps 0).isNone
+            && (lastOr d steps).boxes.isEmpty
+        | .error _ => false)
+    | .error _ => false) = true := by decide
+example : (match snake with | .ok d => yankableAt d 0 | .error _ => false) = true := by decide
+
 end DV.C07
